@@ -121,6 +121,12 @@ class ParserState:
 
         def associator(node: Node) -> Visit:
             association[node].add(platform.name)
+
+            # An #elif/#else of a chain that has already taken a branch is
+            # skipped without evaluating its condition.
+            if node.is_cont_node() and branch_taken[-1]:
+                return Visit.NEXT_SIBLING
+
             active = node.evaluate_for_platform(
                 platform=platform,
                 filename=self._get_realpath(filename),
